@@ -370,6 +370,56 @@ def gram3_source(tag, attr, syntax):
                                      's' if tag == 'var' else '!'), valid
 
 
+# every arrangement of up to three continuation tags inside try / if / in
+GRAM4 = {
+    'try': ['except', 'except KeyError', 'except ValueError', 'else',
+            'finally'],
+    'if x': ['elif y', 'elif z', 'else'],
+    'in x': ['else'],
+}
+
+
+def gram4_valid(block, seq):
+    """True / False / None (= the statement leaves it open)"""
+    if block == 'try':
+        if not seq:
+            return None                   # try without any continuation
+        if 'finally' in seq:
+            return seq == ('finally',)
+        if seq.count('else') > 1 or seq.count('except') > 1:
+            return False
+        if 'else' in seq and seq[-1] != 'else':
+            return False
+        if seq == ('else',):
+            return None                   # else without except: open
+        if 'except' in seq and seq[-1 - ('else' in seq)] != 'except':
+            return None                   # bare except not last: open
+        if len(set(seq)) != len(seq):
+            return None                   # the same named handler twice
+        return True
+    if block == 'if x':
+        if seq.count('else') > 1:
+            return False
+        if 'else' in seq and seq[-1] != 'else':
+            return False
+        return True
+    return len(seq) <= 1
+
+
+def gram4_source(block, seq, syntax):
+    name = block.split()[0]
+    if syntax == 'dtml':
+        return 'HTML', 'p\n\n<dtml-%s>a' % block + ''.join(
+            '<dtml-%s>%d' % (t, i) for i, t in enumerate(seq)) + \
+            '</dtml-%s>q' % name
+    if syntax == 'ssi':
+        return 'HTML', 'p\n\n<!--#%s-->a' % block + ''.join(
+            '<!--#%s-->%d' % (t, i) for i, t in enumerate(seq)) + \
+            '<!--#/%s-->q' % name
+    return 'String', 'p\n\n%%(%s)[a' % block + ''.join(
+        '%%(%s)[%d' % (t, i) for i, t in enumerate(seq)) + '%%(%s)]q' % name
+
+
 def cook(cls, src):
     """-> ('ok', None) | ('exc', exception)"""
     import signal
@@ -513,6 +563,8 @@ def cases(tier):
         yield {'fam': 'gram2', 'block': bi}
     for attr in gram3_attrs():
         yield {'fam': 'gram3', 'attr': attr}
+    for block in GRAM4:
+        yield {'fam': 'gram4', 'block': block}
 
 
 def alphabet(case):
@@ -599,6 +651,26 @@ def run(case):
                 note(judge(res, cls, blk * k, 'pump-nest'), blk * k)
                 note(judge(res, cls, blk * k + end * k, 'pump-nest'), blk)
                 note(judge(res, cls, blk * k + end * (k + 1), 'pump-nest'))
+    elif fam == 'gram4':
+        block = case['block']
+        tags = GRAM4[block]
+        for k in range(0, 4):
+            for seq in itertools.product(tags, repeat=k):
+                valid = gram4_valid(block, seq)
+                for syntax in ('dtml', 'ssi', 'epfs'):
+                    cls, src = gram4_source(block, seq, syntax)
+                    o = judge(res, cls, src, 'gram4')
+                    note(o, src)
+                    if valid is None or valid == (o == 'accepted'):
+                        continue
+                    res.violate(
+                        'reject-invalid' if not valid else 'accept-valid',
+                        '%s:continuations-of-%s' % (
+                            'accepted-invalid' if not valid
+                            else 'rejected-valid', block.split()[0]),
+                        {'source': src, 'continuations': list(seq),
+                         'outcome': o},
+                        {'fam': 'one', 'cls': cls, 'src': src})
     elif fam == 'gram3':
         attr = case['attr']
         tags = sorted(TAG_ATTRS)
